@@ -13,6 +13,7 @@ cases().
 """
 import copy
 import enum
+import inspect
 import itertools
 import operator
 import pickle
@@ -99,9 +100,6 @@ FAMILIES = {
 SINGLETON_FAMS = ["CNAME", "DNAME", "SOA", "NSEC"]
 SIG_FAMS = ["RRSIG", "SIG"]
 PLAIN_FAMS = ["NS", "MX", "A", "AAAA", "TXT", "PTR", "SRV", "GEN", "CHA"]
-
-_pool_cache = {}
-
 
 def mk(fam, i):
     """a *fresh* Rdata object for FAMILIES[fam][i] (fresh, so that equal records are distinct objects)"""
@@ -203,10 +201,6 @@ def assign(regs, d, v):
         regs.append(v)
     else:
         raise IndexError("bad register")
-
-
-def sl(x):
-    return x
 
 
 # ------------------------------------------------------------------ dns.set.Set machine
@@ -501,6 +495,23 @@ def to_py(v):
     raise ValueError
 
 
+def _scribble_py(o):
+    """modify every mutable container of a harness-built value in place"""
+    if isinstance(o, bytearray):
+        o.extend(b"\xee")
+    elif isinstance(o, list):
+        for x in o:
+            _scribble_py(x)
+        o.append(99)
+    elif isinstance(o, dict):
+        for x in list(o.values()):
+            _scribble_py(x)
+        o["scribble"] = 1
+    elif isinstance(o, tuple):
+        for x in o:
+            _scribble_py(x)
+
+
 def from_py(o):
     if isinstance(o, bool):
         raise ValueError
@@ -577,7 +588,20 @@ def _impl(case):
     if k == 4:
         return run_guard(case[1])
     if k == 5:
-        return from_py(dns.immutable.constify(to_py(case[1])))
+        src = to_py(case[1])
+        r = dns.immutable.constify(src)
+        _scribble_py(src)  # the caller reuses its containers: the constified value must not move
+        return from_py(r)
+    if k == 6:
+        v, enc, ml, eok, tup = case[1:6]
+        f = lambda x: dns.rdata.Rdata._as_bytes(x, bool(enc), ml, bool(eok))  # noqa
+        src = to_py(v)
+        try:
+            r = dns.rdata.Rdata._as_tuple(src, f) if tup else f(src)
+        except Exception as e:  # noqa
+            return exc_code(e)
+        _scribble_py(src)
+        return from_py(r)
     return Err(900, "bad case")
 
 
@@ -946,6 +970,14 @@ def cases(ctx):
         yield "guard", [4, [[3, o, []] for o in range(4)] + gen_acts(rng, 3, set(range(4)), True)]
     for _ in range(ctx.n(300, 2000)):
         yield "constify", [5, gen_pval(rng, 3)]
+    # ---- Rdata._as_bytes / _as_tuple(_as_bytes): what a binary field is normalised through
+    for _ in range(ctx.n(300, 2000)):
+        r = rng.random()
+        if r < 0.5:
+            v = rng.choice([[2, b"ab"], [3, b"ab"], [3, b""], [2, b""], [4, b"xy"], [4, b""], [3, bytes(range(7))], [1, 5], [5], [10, 1]])
+        else:
+            v = gen_pval(rng, 2)
+        yield "asbytes", [6, v, rng.randrange(2), rng.choice([None, None, 0, 1, 3, 255]), rng.randrange(2), rng.randrange(2)]
 
 
 # ------------------------------------------------------------------ oracle
@@ -1405,7 +1437,7 @@ def oracle(ctx, kind, case, out):
         F.append(d)
 
     if isinstance(out, Err):
-        if out.code != 900:
+        if out.code != 900 and not (case[0] == 6 and out.code in (1, 4)):
             fail("unexpected exception " + out.text)
         return F
     k = case[0]
@@ -1423,6 +1455,11 @@ def oracle(ctx, kind, case, out):
             fail("constify left a mutable container", sig="constify")
         if _shape(out) != _shape(case[1]):
             fail("constify changed the content", sig="constify")
+    elif k == 6:
+        # a normalised binary field is bytes / a tuple of bytes, never the caller's buffer
+        ok = out[0] == 2 if not case[5] else (out[0] == 6 and all(x[0] == 2 for x in out[1]))
+        if not ok:
+            fail("_as_bytes/_as_tuple returned something that is not bytes / a tuple of bytes (mutable field)", sig="asbytes")
     return F[:3]
 
 
@@ -1551,7 +1588,71 @@ def _probe_object(o, label, F, count):
                 F.append({"kind": "immutable:changed", "what": f"{what}({label}, {nme!r}) changed the attribute", "cls": label, "attr": nme})
 
 
+def _mutabilize(v):
+    """the same content in caller-owned mutable containers"""
+    if isinstance(v, bytes):
+        return bytearray(v)
+    if isinstance(v, tuple):
+        return [_mutabilize(x) for x in v]
+    if isinstance(v, dns.immutable.Dict):
+        return {k: _mutabilize(x) for k, x in v.items()}
+    return v
+
+
+def _scribble(v):
+    """the caller reuses its buffers"""
+    if isinstance(v, bytearray):
+        if len(v):
+            v[0] ^= 0xFF
+        v.extend(b"\x01")
+    elif isinstance(v, list):
+        for x in v:
+            _scribble(x)
+        v.append(b"scribble")
+    elif isinstance(v, dict):
+        for x in v.values():
+            _scribble(x)
+        v[65000] = None
+
+
+def _check_constructor_aliasing(label, rd, F, count, notes):
+    """a record built through its type constructor from caller-owned bytearrays / lists / dicts
+    must not keep them: no mutable field, and the value (digest, ==, hash) does not move when the
+    caller scribbles over its buffers afterwards"""
+    try:
+        params = list(inspect.signature(rd.__init__).parameters)
+        args = [getattr(rd, k) for k in params]
+    except Exception as e:  # noqa
+        notes.append(f"{label}: constructor arguments not recoverable ({type(e).__name__})")
+        return
+    for i, a in enumerate(args):
+        m = _mutabilize(a)
+        if m is a:
+            continue
+        margs = list(args)
+        margs[i] = m
+        count[0] += 1
+        try:
+            rd2 = type(rd)(*margs)
+        except Exception as e:  # noqa
+            notes.append(f"{label}.{params[i]}: constructor refuses a {type(m).__name__} ({type(e).__name__})")
+            continue
+        bad = []
+        is_immutable_value(rd2, f"{label}({params[i]}=<{type(m).__name__}>)", bad)
+        for path, why in bad:
+            F.append({"kind": "immutable:ctor-field", "what": f"{path} holds a mutable value ({why}) after construction from a caller-owned {type(m).__name__}", "cls": label, "attr": params[i]})
+        try:
+            d0, h0, eq0 = rd2.to_digestable(ROOT), hash(rd2), rd2 == rd
+            _scribble(m)
+            d1, h1, eq1 = rd2.to_digestable(ROOT), hash(rd2), rd2 == rd
+            if (d0, h0, eq0) != (d1, h1, eq1) or not eq0:
+                F.append({"kind": "immutable:ctor-alias", "what": f"{label}: the record built from a caller-owned {type(m).__name__} for {params[i]!r} changed its value (digest/hash/==) when the buffer was reused", "cls": label, "attr": params[i]})
+        except Exception as e:  # noqa
+            F.append({"kind": "immutable:ctor-alias", "what": f"{label}.{params[i]}: {type(e).__name__} {e}", "cls": label, "attr": params[i]})
+
+
 def _check_instance(label, rd, F, count, anomalies):
+    _check_constructor_aliasing(label, rd, F, count, anomalies)
     _probe_object(rd, label, F, count)
     bad = []
     is_immutable_value(rd, label, bad)
@@ -1653,6 +1754,17 @@ def extra(ctx):
     try:
         n = dns.name.from_text("Foo.Example.")
         _probe_object(n, "Name", F, count)
+        lbls = [b"Foo", b"Example", b""]
+        n2 = dns.name.Name(lbls)
+        lbls[0] = b"Bar"
+        lbls.append(b"x")
+        if not isinstance(n2.labels, tuple) or n2 != n or hash(n2) != hash(n) or n2.labels[0] != b"Foo":
+            F.append({"kind": "immutable:ctor-alias", "what": "Name built from a caller-owned list of labels keeps the list / changed when it was reused", "cls": "Name", "attr": "labels"})
+        _probe_object(n2, "Name(list)", F, count)
+        n3 = pickle.loads(pickle.dumps(n))
+        if n3 != n or hash(n3) != hash(n):
+            F.append({"kind": "value:pickle", "what": "unpickled Name differs", "cls": "Name"})
+        _probe_object(n3, "Name (pickle)", F, count)
         bad = []
         is_immutable_value(n, "Name", bad)
         rds = dns.rdataset.from_text("IN", "A", 300, "10.0.0.1", "10.0.0.2")
